@@ -20,7 +20,8 @@ func init() {
 	core.Register(&c15{base: base{
 		id: "C15",
 		rule: "exhaustive matrix: placement of the statement {directly in the module, in a grouping used in the same module, in a grouping used from another module, in a grouping used inside an " +
-			"augment of a third module, under an augment into another module, (leafref only) in a typedef used from another module} x statement {must, when, leafref path} x prefix usage " +
+			"augment of a third module, under an augment into another module, (leafref only) in a typedef used from another module, a when on a uses of another module's grouping, " +
+			"a must added by refine to another module's grouping, a when on an augment of another module, a must added by deviate add from another module} x statement {must, when, leafref path} x prefix usage " +
 			"{none, own prefix of the defining module, prefix imported only by the defining module, prefix imported only by the using module, the same prefix bound to different modules in the " +
 			"defining and the using module, undeclared prefix} x expression {valid, and one representative per rejection class of C04: unbalanced bracket, dangling operator, unknown function, " +
 			"attribute axis, '//', variable, two operands without operator, node-type test, unterminated literal, malformed number}; thorough adds seeded expressions from the C02/C04 generators; " +
@@ -35,7 +36,9 @@ func init() {
 	}})
 }
 
-var c15Placements = []string{"direct", "grouping-local", "grouping-other-module", "grouping-in-augment", "augment-other-module", "typedef-other-module"}
+var c15Placements = []string{"direct", "grouping-local", "grouping-other-module", "grouping-in-augment", "augment-other-module", "typedef-other-module",
+	// statements written in one module that land on a node defined in another one
+	"when-on-uses-of-foreign-grouping", "must-by-refine-of-foreign-grouping", "when-on-augment-of-other-module", "must-by-deviate-add-from-other-module"}
 var c15Stmts = []string{"must", "when", "path"}
 var c15PrefixUses = []string{"none", "own", "imported-by-definer-only", "imported-by-user-only", "same-prefix-different-modules", "undeclared"}
 
@@ -90,6 +93,16 @@ func c15Build(placement, stmt, pu string, ex c15Expr, custom string) *c15Case {
 	if placement == "typedef-other-module" && stmt != "path" {
 		return nil
 	}
+	switch placement {
+	case "when-on-uses-of-foreign-grouping", "when-on-augment-of-other-module":
+		if stmt != "when" {
+			return nil
+		}
+	case "must-by-refine-of-foreign-grouping", "must-by-deviate-add-from-other-module":
+		if stmt != "must" {
+			return nil
+		}
+	}
 	// modules: def (where the statement is written), use (where it ends up), x, y
 	def := yang.S("module", "c15-def", yang.S("namespace", nsDef), yang.S("prefix", "d"))
 	use := yang.S("module", "c15-use", yang.S("namespace", nsUse), yang.S("prefix", "u"))
@@ -103,9 +116,22 @@ func c15Build(placement, stmt, pu string, ex c15Expr, custom string) *c15Case {
 		writer = use
 		writerNS = nsUse
 	}
-	if placement == "augment-other-module" {
+	// the other module involved (where the statement ends up / where the carrying node is defined)
+	other := use
+	switch placement {
+	case "direct":
+		other = nil
+	case "augment-other-module":
 		writer = yang.S("module", "c15-aug", yang.S("namespace", nsAug), yang.S("prefix", "a"))
 		writerNS = nsAug
+		other = nil
+	case "when-on-augment-of-other-module", "must-by-deviate-add-from-other-module":
+		writer = yang.S("module", "c15-aug", yang.S("namespace", nsAug), yang.S("prefix", "a"))
+		writerNS = nsAug
+		other = use
+	case "when-on-uses-of-foreign-grouping", "must-by-refine-of-foreign-grouping":
+		writer, writerNS = use, nsUse
+		other = def
 	}
 	writerPrefix := writer.Find("prefix").Arg
 	imp := func(m *yang.Stmt, mod, pfx string) {
@@ -125,18 +151,18 @@ func c15Build(placement, stmt, pu string, ex c15Expr, custom string) *c15Case {
 		p = "x:"
 		c.expectNS = nsX
 	case "imported-by-user-only":
-		if direct || placement == "augment-other-module" {
+		if other == nil {
 			return nil // there is no separate using module
 		}
-		imp(use, "c15-x", "x")
+		imp(other, "c15-x", "x")
 		p = "x:"
 		c.expectAccept = false
 	case "same-prefix-different-modules":
-		if direct || placement == "augment-other-module" {
+		if other == nil {
 			return nil
 		}
 		imp(writer, "c15-x", "x")
-		imp(use, "c15-y", "x")
+		imp(other, "c15-y", "x")
 		p = "x:"
 		c.expectNS = nsX
 	case "undeclared":
@@ -185,6 +211,24 @@ func c15Build(placement, stmt, pu string, ex c15Expr, custom string) *c15Case {
 	case "augment-other-module":
 		imp(writer, "c15-use", "uu")
 		writer.Add(yang.S("augment", "/uu:top-use", leaf))
+		mods = append(mods, writer)
+	case "when-on-uses-of-foreign-grouping":
+		// the grouping's leaf is plain; the when is written on the uses in the using module
+		def.Add(yang.S("grouping", "g", yang.S("leaf", "carrier", yang.S("type", "string"))))
+		imp(use, "c15-def", "d")
+		useTop.Add(yang.S("uses", "d:g", yang.S("when", c.exprText)))
+	case "must-by-refine-of-foreign-grouping":
+		def.Add(yang.S("grouping", "g", yang.S("leaf", "carrier", yang.S("type", "string"))))
+		imp(use, "c15-def", "d")
+		useTop.Add(yang.S("uses", "d:g", yang.S("refine", "carrier", yang.S("must", c.exprText, yang.S("error-message", "c15 must")))))
+	case "when-on-augment-of-other-module":
+		imp(writer, "c15-use", "uu")
+		writer.Add(yang.S("augment", "/uu:top-use", yang.S("when", c.exprText), yang.S("leaf", "carrier", yang.S("type", "string"))))
+		mods = append(mods, writer)
+	case "must-by-deviate-add-from-other-module":
+		imp(writer, "c15-use", "uu")
+		useTop.Add(yang.S("leaf", "carrier", yang.S("type", "string")))
+		writer.Add(yang.S("deviation", "/uu:top-use/uu:carrier", yang.S("deviate", "add", yang.S("must", c.exprText, yang.S("error-message", "c15 must")))))
 		mods = append(mods, writer)
 	case "typedef-other-module":
 		td := yang.S("typedef", "lr", leaf.Find("type").Clone())
